@@ -531,3 +531,51 @@ pub fn replay_prop(doc: &Value, t: &mut Tally) {
         t.nontrivial += 1;
     }
 }
+
+/// beyond the listed properties: the UNICODE_VERSION generator reads a version text the way Version.tla says
+/// (unanchored `([0-9]+).([0-9]+).([0-9]+)` with permissive dots, leftmost-first), through RustCodeGen and a real file
+pub fn replay_version(doc: &Value, t: &mut Tally) {
+    let dir = scratch();
+    let text: String = doc["text"].as_array().map(|a| a.iter().map(|c| c.as_str().unwrap_or("")).collect()).unwrap_or_default();
+    let out = dir.join("version.rs");
+    // embedded in the surroundings a build script may hand over as well: the reading of the text itself must not change
+    // when the surroundings contain no digit
+    for (pre, post) in [("", ""), ("Unicode ", " data"), ("\n", "\n")] {
+        let full = format!("{}{}{}", pre, text, post);
+        std::fs::remove_file(&out).ok();
+        t.executions += 1;
+        let res = std::panic::catch_unwind(|| -> Result<String, String> {
+            let mut gen = RustCodeGen::new(&out).map_err(|e| e.to_string())?;
+            gen.add(Box::new(precis_tools::UnicodeVersionGen::new(&full)));
+            gen.generate_code().map_err(|e| e.to_string())?;
+            drop(gen);
+            std::fs::read_to_string(&out).map_err(|e| e.to_string())
+        });
+        let actual = match res {
+            Err(_) => json!({"panic": true}),
+            Ok(Err(_)) => json!({"err": "no version"}),
+            Ok(Ok(src)) => {
+                let line = src.lines().find(|l| l.contains("UNICODE_VERSION")).unwrap_or("");
+                let nums: Vec<u64> = line
+                    .rsplit('=')
+                    .next()
+                    .unwrap_or("")
+                    .split(|c: char| !c.is_ascii_digit())
+                    .filter(|p| !p.is_empty())
+                    .filter_map(|p| p.parse().ok())
+                    .collect();
+                if nums.len() == 3 {
+                    json!({"major": nums[0], "minor": nums[1], "patch": nums[2]})
+                } else {
+                    json!({"unreadable": line})
+                }
+            }
+        };
+        if actual != doc["res"] {
+            t.mismatch(json!({"k": "version", "text": full, "expected": doc["res"], "actual": actual}));
+        }
+    }
+    if doc["res"].get("major").is_some() {
+        t.nontrivial += 1;
+    }
+}
